@@ -373,6 +373,8 @@ pub fn script_from_bytes(data: &[u8]) -> (crate::sim::Script, bool) {
             error_kind: 0,
             real_ms_per_advance: 0,
             noise_connection: false,
+            greeting_tail: None,
+            foreign_callers: false,
         },
         faulty && fault_used,
     )
